@@ -53,4 +53,49 @@ theorem callerPanic_runFrom (v : Variant) (hrec : Gen.ShutdownShape.closeRecover
     | none => simp [hf] at h
     | some s1 => simp only [hf, Option.bind_some] at h; rw [ih h, callerPanic_fire v hrec hf]
 
+/-- the watcher is a lossless queue: an outstanding error notification can only go away by being received -/
+theorem watchErr_fire (v : Variant) {s s' : S} {l : Label} (hl : l ≠ .pick .watchErr)
+    (h : fire v s l = some s') : s.nWatchErr ≤ s'.nWatchErr := by
+  cases l with
+  | call =>
+    simp only [fire, S.emit, Option.some.injEq] at h
+    by_cases hh : v.honours s.st = true <;> simp only [hh, if_true, if_false, Bool.false_eq_true] at h <;> subst h <;> exact Nat.le_refl _
+  | close =>
+    simp only [fire] at h
+    split at h
+    · simp only [Option.some.injEq] at h; subst h; exact Nat.le_refl _
+    · cases h
+  | cancel => simp only [fire, Option.some.injEq] at h; subst h; exact Nat.le_refl _
+  | fatal => simp only [fire, Option.some.injEq] at h; subst h; exact Nat.le_refl _
+  | giveUp =>
+    simp only [fire] at h
+    split at h
+    · simp only [Option.some.injEq] at h; subst h; exact Nat.le_refl _
+    · cases h
+  | post e =>
+    cases e <;> simp only [fire, postEv, Option.some.injEq, reduceCtorEq] at h <;>
+      first | (subst h; first | exact Nat.le_refl _ | exact Nat.le_succ _) | cases h
+  | begin =>
+    simp only [fire] at h
+    split at h
+    · simp only [Option.some.injEq] at h; subst h; exact Nat.le_refl _
+    · cases h
+  | pick e =>
+    simp only [fire] at h
+    split at h
+    · cases e <;> simp only [pickEv, leave, S.emit] at h <;> first | exact absurd rfl hl | skip
+      all_goals (split at h <;> simp only [Option.some.injEq, reduceCtorEq] at h)
+      all_goals subst h
+      all_goals exact Nat.le_refl _
+    · cases h
+  | step ok =>
+    simp only [fire] at h
+    cases hpc : s.pc <;> cases ok <;>
+      simp only [stepRun, hpc, setSt, S.emit, Option.some.injEq, if_true, if_false, Bool.false_eq_true, reduceCtorEq] at h
+    all_goals subst h
+    all_goals (try (rename_i rl; cases rl))
+    all_goals (cases hsvc : s.svc)
+    all_goals simp only [failSetup, svcShutdown, S.emit, hsvc, if_true, if_false, Bool.false_eq_true]
+    all_goals exact Nat.le_refl _
+
 end OtelVerif.C20
